@@ -490,3 +490,103 @@ package val
 //@   ensures  i >= verif_tup_count(tup) ==> result0 == 0 && !result1
 //@   ensures  i < verif_tup_count(tup) ==> result0 == int(verif_tup_start(tup, i)) && result1 == (verif_tup_start(tup, i) != verif_tup_stop(tup, i))
 //@   modifies nothing
+
+// ---- adaptive (inline / out-of-band) values (C16)
+
+//@ ghost_global verif_ghost
+
+//@ extern (github.com/dolthub/dolt/go/store/val.ValueStore).WriteBytes as verif_x_vs_WriteBytes
+//@   modifies nothing
+//@   ghost_set verif_ghost.aHash = h
+
+//@ func (AdaptiveValue).IsNull
+//@   property C16
+//@   nopanic
+//@   modifies nothing
+//@   ensures result == (len(v) == 0)
+//@ func (AdaptiveValue).isInlined
+//@   property C16
+//@   nopanic
+//@   modifies nothing
+//@   ensures result == (len(v) > 0 && v[0] == 0)
+//@ func (AdaptiveValue).IsOutOfBand
+//@   property C16
+//@   nopanic
+//@   modifies nothing
+//@   ensures result == (len(v) > 0 && v[0] != 0)
+
+//@ func AdaptiveValueInlineBytes
+//@   property C16
+//@   nopanic
+//@   requires len(value) < 1<<40
+//@   modifies nothing
+//@   ensures len(result) == 1+len(value) && result[0] == 0
+//@   ensures forall k in 0..len(value): result[1+k] == value[k]
+
+//@ func InlineValueBytes
+//@   property C16
+//@   nopanic
+//@   modifies nothing
+//@   ensures len(val) == 0 ==> result1 && len(result0) == 0
+//@   ensures len(val) > 0 && val[0] == 0 ==> result1 && len(result0) == len(val)-1
+//@   ensures len(val) > 0 && val[0] == 0 ==> forall k in 0..len(val)-1: result0[k] == val[1+k]
+//@   ensures len(val) > 0 && val[0] != 0 ==> !result1
+
+//@ lemma verif_lemma_c16_partition
+//@   property C16
+// sizes of an inline value
+//@ func (AdaptiveValue).getMessageLength
+//@   property C16
+//@   inline_call Uvarint
+//@   modifies nothing
+//@   ensures len(v) == 0 ==> result == 0
+//@   ensures len(v) > 0 && v[0] == 0 ==> result == int64(len(v)) - 1
+//@ func (AdaptiveValue).inlineSize
+//@   property C16
+//@   modifies nothing
+//@   ensures len(v) == 0 ==> result == 0
+//@   ensures len(v) > 0 && v[0] == 0 ==> result == int64(len(v))
+
+//@ lemma verif_lemma_c16_inline_roundtrip
+//@   property C16
+//@   requires len(value) < 1<<40
+//@   inline_call IsInlineAdaptiveBytes
+//@   inline_call IsNullAdaptiveValueBytes
+//@ lemma verif_lemma_c16_uvarint_roundtrip
+//@   property C16
+//@   inline_call Encode
+//@   inline_call PutUvarint
+//@   inline_call Uvarint
+//@ lemma verif_lemma_c16_outofband_roundtrip
+//@   property C16
+//@   requires vs != nil
+//@   inline_call convertBytesToOutOfBand
+//@   inline_call makeVarInt
+//@   inline_call Encode
+//@   inline_call PutUvarint
+//@   inline_call Uvarint
+//@   inline_call getMessageLength
+//@   inline_call outOfBandSize
+//@   inline_call inlineSize
+//@   also_modifies verif_ghost.aHash
+
+// convertToOutOfBand: an out-of-band value is returned as it is; otherwise the bytes after the inline marker are
+// converted (never into a caller-shared buffer that is too small)
+//@ const_global maxVarIntLength
+//@ const_global maxOutOfBandAdaptiveValueLength
+//@ func (AdaptiveValue).convertToOutOfBand
+//@   property C16
+//@   at call convertBytesToOutOfBand: assert verif_sameslice(arg1:[]byte, v[1:]) && cap(arg3:[]byte) >= 29
+
+// BuildPermissive: a field is converted only if that saves space, and every conversion gets a buffer of its own
+// (nil: the converted value must not share storage with another field)
+//@ func (*TupleBuilder).BuildPermissive
+//@   property C16
+//@   at call convertToOutOfBand: assert len(arg3:[]byte) == 0 && cap(arg3:[]byte) == 0
+//@   at call convertToInline: assert len(arg3:[]byte) == 0 && cap(arg3:[]byte) == 0
+
+// PutRaw copies the bytes it is given into the builder's own buffer
+//@ func (*TupleBuilder).PutRaw
+//@   property C16
+//@   trusted copies |buf| into the builder's buffer (its size bookkeeping is C15's writeRaw)
+//@   modifies *tb
